@@ -5,6 +5,7 @@ mod checks;
 mod gen;
 mod oracle;
 mod run;
+mod setup;
 mod special;
 mod util;
 
